@@ -204,6 +204,31 @@ def b_reversed(V, st, args, kwargs, node):
     return MRev(args[0])
 
 
+@_b('map')
+def b_map(V, st, args, kwargs, node):
+    from .calls import apply
+    if len(args) != 2:
+        raise Unsupported('map with several iterables')
+    f, seq = args
+    items = V.iter_items(seq, st, node)
+    if items is not None:
+        return MList([apply(V, f, [i], {}, st, node) for i in items])
+    if isinstance(seq, SV) and isinstance(seq.t, SeqT):
+        i = z3.Int(fresh_name('mi'))
+        V.spec_mode += 1
+        try:
+            elt = apply(V, f, [SV(seq.t.elem, seq.z[i])], {}, st.fork(), node)
+        finally:
+            V.spec_mode -= 1
+        t = type_of(elt)
+        r = fresh(SeqT(t), 'map')
+        n = z3.Length(seq.z)
+        st.assume(z3.Length(r.z) == n)
+        st.assume(z3.ForAll([i], z3.Implies(z3.And(i >= 0, i < n), r.z[i] == pack(elt, t))))
+        return r
+    raise Unsupported('map over %r' % (seq,))
+
+
 @_b('zip')
 def b_zip(V, st, args, kwargs, node):
     return MZip(list(args))
@@ -222,7 +247,7 @@ def b_range(V, st, args, kwargs, node):
 def b_list(V, st, args, kwargs, node):
     if not args:
         return MList([])
-    v = args[0]
+    v = V.nn(st, args[0], node, 'list() argument')
     items = V.iter_items(v, st, node)
     if items is not None:
         return MList(items)
@@ -331,6 +356,14 @@ def _subset_any(V, a, b):
     bz = pack(b, a.t)
     x = z3.Const(fresh_name('sx'), sort_of(a.t.elem))
     return SV(BOOL, z3.ForAll([x], z3.Implies(z3.Select(a.z, x), z3.Select(bz, x))))
+
+
+@_b('used_from')
+def b_used_from(V, st, args, kwargs, node):
+    """spec: every member of the set occurs in the sequence"""
+    a, seq = args
+    x = z3.Const(fresh_name('ux'), sort_of(a.t.elem))
+    return SV(BOOL, z3.ForAll([x], z3.Implies(z3.Select(a.z, x), z3.Contains(seq.z, z3.Unit(x)))))
 
 
 @_b('getattr')
